@@ -8,7 +8,11 @@ For every signature of the universe (with annotations and defaults):
  (c) support.bind_callsig agrees with really calling a def with that signature
      (independent oracle) and with the Gallina model (correspondence);
  (d) sort_callsigs / make_up_callsigs against brute force and the model;
- (e) read_sig / func_code against the token-level model.
+ (e) read_sig / func_code against the token-level model;
+ (c') bind_callsig / sort_callsigs with the positional arguments held in a list, range, UserList,
+     array or tuple subclass: the mapping of the real call (surplus in a tuple);
+ (h) annotation / default / return annotation texts that are names of the caller's globals=
+     namespace, including names the helpers use themselves (`modifiers`, `func`, ...).
 """
 import inspect
 import itertools
@@ -198,6 +202,104 @@ def real_call(fn, args, kwargs):
         return ('err', str(e))
 
 
+# The positional arguments of a call shape held in something else than a tuple: CPython
+# star-unpacks any of them and always collects the surplus in a tuple.  (Sequences that
+# can be sliced, as bind_callsig slices its argument.)
+class ArgsTuple(tuple):
+    """a tuple subclass (e.g. a named tuple of arguments)"""
+
+
+def _mk_range(vals):
+    vals = list(vals)
+    if vals and vals != list(range(vals[0], vals[0] + len(vals))):
+        return list(vals)
+    return range(vals[0], vals[0] + len(vals)) if vals else range(0)
+
+
+def _mk_array(vals):
+    import array
+    return array.array('q', vals)
+
+
+def _mk_userlist(vals):
+    import collections
+    return collections.UserList(vals)
+
+
+CONTAINERS = {'list': list, 'range': _mk_range, 'userlist': _mk_userlist, 'array': _mk_array,
+              'tuple-subclass': ArgsTuple}
+CONTAINER_NAMES = sorted(CONTAINERS)
+
+
+def decide_bind_container(ps, args, kwargs, cname, sig=None, fn=None, impl_tuple=None):
+    """bind_callsig with the positional arguments held in a CONTAINERS[cname]: the answer
+    must be the one of really calling def func<ps>(*args, **kwargs) (the surplus in a tuple,
+    whatever was unpacked), which is also the answer for the same arguments in a tuple.
+    Returns what|None."""
+    sig = sig or expected_sig(ps)
+    fn = fn or real_def(ps)
+    held = CONTAINERS[cname](args)
+    try:
+        impl = ('ok', support.bind_callsig(sig, held, dict(kwargs)))
+    except TypeError as e:
+        impl = ('err', enc_err(e), str(e))
+    except Exception as e:  # noqa: BLE001
+        impl = ('err', (9, 0), '%s: %s' % (type(e).__name__, e))
+    real = real_call(fn, CONTAINERS[cname](args), kwargs)
+    if collision(ps, kwargs):
+        return None
+    call = '%r, %r' % (held, dict(kwargs))
+    if impl[0] != real[0]:
+        return ('bind_callsig(%s, %s) %s but really calling def func%s(*%r, **%r) %s'
+                % (show(ps), call,
+                   'returned %r' % (impl[1],) if impl[0] == 'ok' else 'raised (%s)' % impl[2],
+                   show(ps), held, dict(kwargs),
+                   'returned %r' % (real[1],) if real[0] == 'ok' else 'raised TypeError(%s)' % real[1]))
+    if impl[0] == 'ok':
+        if impl[1] != real[1] or any(type(impl[1][k]) is not type(real[1][k]) for k in real[1]):
+            return ('bind_callsig(%s, %s) returned %r but the real call func(*%r, **%r) returned %r'
+                    % (show(ps), call, impl[1], held, dict(kwargs), real[1]))
+    if impl_tuple is not None and impl_tuple[:2] != impl[:2]:
+        return ('bind_callsig(%s, %s) answers %r but %r for the same arguments in a tuple'
+                % (show(ps), call, impl[1], impl_tuple[1]))
+    return None
+
+
+def decide_sort_container(ps, calls, cname, sig=None, fn=None):
+    """sort_callsigs on call shapes whose positional arguments are held in a container:
+    the same partition, and every bound mapping equal to the real return value."""
+    sig = sig or expected_sig(ps)
+    fn = fn or real_def(ps)
+    mk = CONTAINERS[cname]
+    callsigs = [(mk(a), dict(k)) for a, k in calls]
+    try:
+        with warnings.catch_warnings():
+            warnings.simplefilter('ignore')
+            valid, invalid = support.sort_callsigs(sig, callsigs)
+    except Exception as e:  # noqa: BLE001
+        return 'sort_callsigs(%s, <%d calls, positional arguments in a %s>) raised %s: %s' % (
+            show(ps), len(calls), cname, type(e).__name__, e)
+    vi = ii = 0
+    for (args, kwargs), cs in zip(calls, callsigs):
+        real = real_call(fn, mk(args), kwargs)
+        in_valid = vi < len(valid) and valid[vi][0] is cs[0] and valid[vi][1] is cs[1]
+        if in_valid:
+            bound = valid[vi][2]
+            vi += 1
+        elif ii < len(invalid) and invalid[ii][0] is cs[0] and invalid[ii][1] is cs[1]:
+            ii += 1
+        else:
+            return 'sort_callsigs(%s, ...) lost or reordered the call (%r, %r)' % (show(ps), cs[0], cs[1])
+        if collision(ps, kwargs):
+            continue
+        if in_valid != (real[0] == 'ok') or (in_valid and (
+                bound != real[1] or any(type(bound[k]) is not type(real[1][k]) for k in real[1]))):
+            return 'sort_callsigs(%s, ...) put (%r, %r) in %s%s but the real call func(*%r, **%r) %s' % (
+                show(ps), cs[0], cs[1], 'valid' if in_valid else 'invalid', ' with %r' % (bound,) if in_valid else '',
+                cs[0], cs[1], 'returned %r' % (real[1],) if real[0] == 'ok' else 'raised TypeError')
+    return None
+
+
 def collision(ps, kwargs):
     po = {nname(p[0]) for p in ps if p[1] == 'PO'}
     return any(p[1] == 'VK' for p in ps) and any(k in po for k, _ in kwargs)
@@ -301,6 +403,7 @@ def check_binder(ctx, rep, sigs):
     ncalls = 0
     ncoll = 0
     kinds = {}
+    nheld = {}
     for ps in sigs:
         sig = expected_sig(ps)
         fn = real_def(ps)
@@ -321,6 +424,13 @@ def check_binder(ctx, rep, sigs):
             kinds[key] = kinds.get(key, 0) + 1
             if what:
                 rep.violation('C20:bind', what, {'kind': 'bind', 'sig': ps, 'args': args, 'kwargs': kwargs})
+            # the same positional arguments held in a list and in one more kind of sequence
+            for cname in ('list', CONTAINER_NAMES[ncalls % len(CONTAINER_NAMES)]):
+                nheld[cname] = nheld.get(cname, 0) + 1
+                w2 = decide_bind_container(ps, args, kwargs, cname, sig, fn, impl)
+                if w2:
+                    rep.violation('C20:bind', w2, {'kind': 'bind-container', 'sig': ps, 'args': args, 'kwargs': kwargs,
+                                                   'container': cname})
             in_valid = vi < len(valid) and valid[vi][0] == cs[0] and valid[vi][1] == cs[1] and list(valid[vi][1]) == list(cs[1])
             if in_valid:
                 bound = valid[vi][2]
@@ -345,6 +455,10 @@ def check_binder(ctx, rep, sigs):
             if impl[0] == 'err' or kwargs or len(args) > 0:
                 rep.distinct.add(('bind', tuple(ps), tuple(args), tuple(kwargs)))
         groups.append((ps, cases))
+        for cname in ('list', CONTAINER_NAMES[len(groups) % len(CONTAINER_NAMES)]):
+            w2 = decide_sort_container(ps, calls, cname, sig, fn)
+            if w2:
+                rep.violation('C20:sort', w2, {'kind': 'sort-container', 'sig': ps, 'calls': calls, 'container': cname})
     # correspondence with the model, sharded
     shards = []
     cur, n = [], 0
@@ -375,6 +489,7 @@ def check_binder(ctx, rep, sigs):
                 else:
                     rep.corr_break('C20_bind statement evaluated in the model', inp, 'false', '')
     rep.coverage['bind_calls'] = ncalls
+    rep.coverage['bind_calls_positional_arguments_held_in'] = nheld
     rep.coverage['bind_calls_po_keyword_with_varkwargs_excluded'] = ncoll
     rep.coverage['bind_error_kinds'] = {str(k): v for k, v in sorted(kinds.items())}
     rep.coverage['bind_coq_shards'] = len(shards)
@@ -981,6 +1096,176 @@ def check_rich(ctx, rep, U2, U3):
     return n
 
 
+# ---------------------------------------------------------------- (h) names of the caller's namespace
+# Annotation, default and return annotation texts that are NAMES, bound by the caller in the
+# globals= namespace given to s / f: every name must mean what it means for the caller --
+# also a name the helpers use themselves (`modifiers`, which make_func provides for the
+# decorators func_code emits; `func`, the name of the generated function; `support`,
+# `signature`), and a name shadowing a builtin.  Eager and postponed.
+# With `modifiers` bound by the caller only the native spelling is in the domain (the
+# modifiers spellings need the name themselves); with a namespace that does not bind it
+# every spelling is.
+class Mark(object):
+    def __init__(self, name):
+        self.name = name
+
+    def __repr__(self):
+        return '<the caller\'s %s>' % self.name
+
+
+NS_NAMES = ['modifiers', 'T0', 'func', 'int', 'Marker', 'support', 'signature', '_util']
+
+
+def make_ns(bind_modifiers):
+    return {n: Mark(n) for n in NS_NAMES if bind_modifiers or n != 'modifiers'}
+
+
+def ns_build(ps, j, bind_modifiers):
+    """ps: a parameter list of the universe; j rotates the names over the places"""
+    pool = [n for n in NS_NAMES if bind_modifiers or n != 'modifiers']
+    n = len(ps)
+    mode = j % 3
+    rs = []
+    for i, p in enumerate(ps):
+        de = pool[(j + i) % len(pool)] if p[2] is not None else None
+        an = None
+        if mode == 0 or (mode == 1 and i % 2 == 0) or (mode == 2 and i == n - 1):
+            an = pool[(j // 3 + 2 * i) % len(pool)]
+        rs.append([nname(p[0]), p[1], de, an])
+    ret = None if j % 4 == 3 else pool[(j // 2) % len(pool)]
+    return rs, ret
+
+
+def ns_real_def(rs, ns):
+    """independent: a def with these parameters (defaults by name) executed in a copy of the caller's namespace"""
+    body = ', '.join('%r: %s' % (r[0], r[0]) for r in rs)
+    g = dict(ns)
+    exec('def c20_ref(%s):\n    return {%s}\n' % (rich_text(rs, annotations=False), body), g)
+    return g['c20_ref']
+
+
+def decide_namespace(rs, ret, bind_modifiers, opts, postponed):
+    """Returns a list of (key, what)."""
+    ns = make_ns(bind_modifiers)
+    before = dict(ns)
+    o = dict(zip(OPT_NAMES, opts))
+    body = rich_text(rs)
+    ff = ('annotations',) if postponed else ()
+    tag = '(%r%s, globals={%s}%s%s)' % (body, '' if ret is None else ', %r' % ret,
+                                        ', '.join('%r: %r' % kv for kv in ns.items()),
+                                        ''.join(', %s=True' % k for k, v in o.items() if v),
+                                        ", future_features=('annotations',)" if postponed else '')
+    rargs = (body,) if ret is None else (body, ret)
+    try:
+        with warnings.catch_warnings():
+            warnings.simplefilter('ignore')
+            got = support.s(*rargs, globals=ns, future_features=ff, **o)
+            fn = support.f(*rargs, globals=ns, future_features=ff, **o)
+            fsig = specifiers.signature(fn)
+            got_e, fsig_e = (got.evaluated(), fsig.evaluated()) if postponed else (got, fsig)
+    except Exception as e:  # noqa: BLE001
+        return [('C20:namespace', 's%s raised %s: %s' % (tag, type(e).__name__, e))]
+    out = []
+
+    late = postponed and not opts[0]      # modifiers.annotate(...) evaluates its arguments when the decorator runs
+
+    def want(text):
+        return P.empty if text is None else ns[text]
+
+    def is_want(v, text, late):
+        """late: evaluated after the def statement ran (postponed annotations), when the name of
+        the generated function is bound to that function, as for any def in that namespace"""
+        if late and text == 'func':
+            return callable(v) and not isinstance(v, Mark) and getattr(v, '__name__', None) == 'func'
+        return v is want(text)
+    for what, sig in (('s', got_e), ('signature(f', fsig_e)):
+        params = list(sig.parameters.values())
+        order = (lambda l: sorted(l, key=lambda x: (x[1] == 'KO', x[0] if x[1] == 'KO' else ''))) if opts[2] else (lambda l: l)
+        have = order([(p.name, {v: k for k, v in KINDS.items()}[p.kind]) for p in params])
+        if have != order([(r[0], r[1]) for r in rs]):
+            out.append(('C20:namespace', '%s%s gave %s: other parameters than the text' % (what, tag, sig)))
+            break
+        bad = None
+        for r in rs:
+            p = sig.parameters[r[0]]
+            if p.default is not want(r[2]):
+                bad = 'the default of %s is %r, the caller\'s namespace gives %r' % (r[0], p.default, want(r[2]))
+            elif not is_want(p.annotation, r[3], late):
+                bad = 'the annotation of %s is %r, the caller\'s namespace gives %r' % (r[0], p.annotation, want(r[3]))
+            elif r[3] is not None and not is_want(p.upgraded_annotation.source_value(), r[3], late):
+                bad = 'the upgraded annotation of %s evaluates to %r, the caller\'s namespace gives %r' % (
+                    r[0], p.upgraded_annotation.source_value(), want(r[3]))
+            if bad:
+                break
+        if not bad and not is_want(sig.return_annotation, ret, late):
+            bad = 'the return annotation is %r, the caller\'s namespace gives %r' % (sig.return_annotation, want(ret))
+        if bad:
+            out.append(('C20:namespace', '%s%s gave %s: %s' % (what, tag, sig, bad)))
+            break
+    if not out and postponed and not opts[0]:
+        for r in rs:
+            p = got.parameters[r[0]]
+            if r[3] is not None and not (p.annotation == r[3] and isinstance(p.upgraded_annotation, S._PostponedAnnotation)):
+                out.append(('C20:namespace', 's%s: annotation of %s is %r (%r), expected the postponed text %r' % (
+                    tag, r[0], p.annotation, p.upgraded_annotation, r[3])))
+                break
+        if ret is not None and got.return_annotation != ret:
+            out.append(('C20:namespace', 's%s: return annotation is %r, expected the postponed text %r' % (
+                tag, got.return_annotation, ret)))
+    # (b) really calling it: defaults are the caller's objects
+    ref = ns_real_def(rs, ns)
+    for args, kwargs in full_calls(rich_ps(rs)):
+        r0 = real_call(ref, args, kwargs)
+        try:
+            with warnings.catch_warnings():
+                warnings.simplefilter('ignore')
+                r1 = ('ok', fn(*args, **dict(kwargs)))
+        except TypeError as e:
+            r1 = ('err', str(e))
+        if r0[0] != r1[0] or (r0[0] == 'ok' and (r0[1] != r1[1] or list(r0[1]) and any(r0[1][k] is not r1[1][k] for k in r0[1]
+                                                                                    if isinstance(r0[1][k], Mark)))):
+            out.append(('C20:namespace', 'the function made by f%s called with (*%s, **%s) %s, a def with these parameters '
+                        'executed in the caller\'s namespace %s' % (
+                            tag, args, dict(kwargs),
+                            'returned %r' % (r1[1],) if r1[0] == 'ok' else 'raised TypeError(%s)' % r1[1],
+                            'returns %r' % (r0[1],) if r0[0] == 'ok' else 'raises TypeError')))
+            break
+    if ns != before or any(ns[k] is not before[k] for k in before):
+        out.append(('C20:namespace', 's/f%s changed the caller\'s namespace: %r' % (tag, sorted(set(ns) ^ set(before)))))
+    return out
+
+
+def check_namespaces(ctx, rep, U2, U3):
+    rng = ctx.rng('namespaces')
+    shapes = list(U2) + rng.sample(U3, 30 if ctx.quick else 300)
+    n = 0
+    roles = {}
+    for si, ps in enumerate(shapes):
+        for j in range(len(NS_NAMES) if si < 60 or not ctx.quick else 3):
+            jj = j + si
+            for bind_modifiers in (True, False):
+                rs, ret = ns_build(ps, jj, bind_modifiers)
+                if not any(r[2] is not None or r[3] is not None for r in rs) and ret is None:
+                    continue
+                for role, used in (('default', [r[2] for r in rs]), ('annotation', [r[3] for r in rs]), ('return', [ret])):
+                    for nm in used:
+                        if nm is not None:
+                            roles[role + ':' + nm] = roles.get(role + ':' + nm, 0) + 1
+                pslike = rich_ps(rs)
+                combos = [(False, False, False)] if bind_modifiers else opt_combos(pslike)
+                if not bind_modifiers and ctx.quick:
+                    combos = [combos[0], combos[(si + j) % len(combos)]]
+                for opts in combos:
+                    for postponed in (False, True):
+                        n += 2 + len(rs)
+                        rep.distinct.add(('ns', rich_show(rs, ret), bind_modifiers, opts, postponed))
+                        for key, what in decide_namespace(rs, ret, bind_modifiers, opts, postponed):
+                            rep.violation(key, what, {'kind': 'namespace', 'sig': rs, 'ret': ret, 'bind_modifiers': bind_modifiers,
+                                                      'opts': list(opts), 'postponed': postponed})
+    rep.coverage['namespace_names_by_role'] = roles
+    return n
+
+
 # ---------------------------------------------------------------- (g) sequences in one process
 # The same parameter text built again and again in one process, with return
 # annotations that are equal but not identical (1 == True == 1.0, 0 == False ==
@@ -1111,7 +1396,9 @@ def run(ctx, rep):
                 'x 8 read_sig option combinations (6 without modifiers.kwoargs when the signature has positional-only parameters) '
                 'x eager/postponed; calls: npos 0..#positional+2 x every keyword subset of the names plus a foreign one '
                 '(sampled above 5 names) with distinct values; non-trivial = a call with arguments or an error, a round trip '
-                'with an option / annotation / default, every make_up enumeration'
+                'with an option / annotation / default, every make_up enumeration; every call also with the positional arguments held in a list '
+                'and in one of range / UserList / array / tuple subclass; texts naming objects of the caller\'s globals= namespace '
+                '(modifiers, func, int, support, signature, _util, T0, Marker) in every place, eager and postponed'
                 % ('a sample of U(3,{a,b,c})' if ctx.quick else 'exhaustive U(3,{a,b,c})'))
     n1 = check_binder(ctx, rep, sigs)
     n2 = check_makeup(ctx, rep, sigs if not ctx.quick else sigs[:260])
@@ -1129,7 +1416,8 @@ def run(ctx, rep):
                     rep.violation('C20:chevron', what, {'kind': 'chevron', 'sig': ps, 'ret': ret, 'op': op})
     n5 = check_rich(ctx, rep, U2, U3)
     n6 = check_sequences(ctx, rep, metas)
-    rep.evaluations = n1 + n2 + n3 + n4 + n5 + n6
+    n7 = check_namespaces(ctx, rep, U2, U3)
+    rep.evaluations = n1 + n2 + n3 + n4 + n5 + n6 + n7
     # the recorded defect of func_from_sig (return annotations) is reported last
     for key, what, data in DEFERRED:
         rep.violation(key, what, data)
@@ -1140,6 +1428,8 @@ def run(ctx, rep):
         'a keyword naming a positional-only parameter alongside **kwargs is excluded from the binder decision (counted in coverage), not from the correspondence',
         'in the model annotation and default texts are integer literals; the real code is also run on texts ending in a parenthesis, unhashable values and classes (no comma, colon or = inside a text); names are identifiers',
         'modifiers.kwoargs spellings are only required for signatures without positional-only parameters',
+        'the positional arguments of a call shape are held in a sequence that can be sliced (bind_callsig slices it); iterators and deques are not explored',
+        'when the caller\'s namespace binds the name modifiers only the native spelling is required (the modifiers spellings need that name themselves); a postponed native annotation naming func means the generated function, as for any def',
     ]
 
 
@@ -1154,6 +1444,10 @@ def replay(ctx, data):
     if kind == 'bind':
         impl, real, what = decide_bind(_ps(r['sig']), r['args'], [tuple(kv) for kv in r['kwargs']])
         return what
+    if kind == 'bind-container':
+        return decide_bind_container(_ps(r['sig']), r['args'], [tuple(kv) for kv in r['kwargs']], r['container'])
+    if kind == 'sort-container':
+        return decide_sort_container(_ps(r['sig']), [(a, [tuple(kv) for kv in k]) for a, k in r['calls']], r['container'])
     if kind == 'sort':
         ps = _ps(r['sig'])
         sig = expected_sig(ps)
@@ -1186,6 +1480,9 @@ def replay(ctx, data):
         return decide_chevron(_ps(r['sig']), r['ret'], r['op'])
     if kind == 'sequence':
         return decide_sequence(_ps(r['sig']), [(tuple(o), x) for o, x in r['steps']])
+    if kind == 'namespace':
+        res = decide_namespace([list(x) for x in r['sig']], r['ret'], r['bind_modifiers'], tuple(r['opts']), r['postponed'])
+        return res[0][1] if res else None
     if kind == 'rich':
         calls = [(list(a), [tuple(kv) for kv in k]) for a, k in r['calls']]
         res = decide_rich([list(x) for x in r['sig']], r['ret'], calls)
